@@ -47,7 +47,7 @@ Qed.
 (* controlled evaluation of the interpreter: only the interpreter, the world and string comparison are unfolded; integer
    arithmetic, len, le/be, the model's functions and the kernels stay folded *)
 Ltac ev :=
-  cbn [run bind_params pf_params pf_body exec_block exec eval bind lookup update update_all bind_targets owner_of test fst snd
+  cbn [run bind_params pf_params pf_body exec_block exec eval bind lookup update update_all bind_targets owner_of place_get place_set test fst snd
        k_flow_sid_to_bytes k_flow_ace_to_bytes k_flow_acl_to_bytes k_flow_sd_to_bytes
        String.eqb Ascii.eqb Bool.eqb andb orb negb length Nat.eqb
        W std_world w_glob w_attr w_setattr w_call w_meth w_int w_bytes w_str w_none w_bool w_truthy w_cmp w_bin w_neg w_tuple
